@@ -652,12 +652,22 @@ def run(ck):
     vlib.import_repo()
     ck.build([MODEL])
     ck.props()
+    # Two ties connect the theorems to _round_robin_assignment; the property is shown when EITHER is intact (DESIGN 10.2b):
+    #  (A) translator tie: the method is translated from THIS run's source (harness/py2assign.py) and proved equal to the
+    #      hand model Assign.round_robin in coq/Run/out/gen/<id>/ (harness/assign_tie.py, Proofs/AssignGenTac.v);
+    #  (B) the hand model + the differential correspondence below without a single difference.
+    # (A) "unavailable: ..." (translation refused) or "differs: ..." (its proof fails): stream 1 is multiplied by 4 and a
+    # clean run passes with the reduced obligation count; any difference in (B) leads to a concrete input as before.
+    import assign_tie
+    tie_state, tie_reason = assign_tie.translator_tie(ck)
+    ck.cov["translator_tie"] = "intact" if tie_state == "intact" else "%s: %s" % (tie_state, tie_reason)
     rnd = random.Random(ck.seed)
     scale = 1 if ck.tier == "quick" else 30
+    ascale = scale if tie_state == "intact" else 4 * scale
 
     # ---------------- 1. generate_assignments -> decode_assignment
     inputs = list(CORPUS)
-    inputs += [gen_input(rnd) for _ in range(1200 * scale)]
+    inputs += [gen_input(rnd) for _ in range(1200 * ascale)]
     inputs += [gen_input(rnd, big=True) for _ in range(25 * scale)]
     rnd_names = random.Random(ck.seed * 7919 + 43)          # own generator: the older streams keep their cases
     named = [gen_input_names(rnd_names) for _ in range(150 * scale)] + [gen_input_names(rnd_names, crowd=True) for _ in range(8 * scale)]
@@ -988,7 +998,16 @@ def run(ck):
         "the leader.  thorough adds every member set over 3 ids x subscription subsets of 2 topics "
         "x 0..3 partitions (exhaustive small scope) and every prefix of an encoding.  A case is non-trivial if at least two members received "
         "an answer with at least one partition / the byte string is longer than 10 bytes; distinct = distinct canonical case lines.")
+    if tie_state != "intact":
+        ck.cov["translator"]["consequence"] = ("tie (B) carried _round_robin_assignment alone: %d violations; stream 1 multiplied by 4"
+                                               % max(len(ck.violations), getattr(ck, "nviol", 0)))
     ck.assumptions += [
+        "tie (A): _ConsumerProtocol._round_robin_assignment is translated from the source by harness/py2assign.py on every run and proved "
+        "equal to Assign.round_robin by the generic tactic Proofs/AssignGenTac.v (trusted: the translator's reading of Python statements as "
+        "the combinators of Model/AssignPy.v - sets as duplicate-free lists in the order Assign.all_topics uses, dicts as association lists, "
+        "itertools.cycle as (list, index), `while` with a fuel argument and the theorem quantified over every fuel >= number of members); "
+        "generate_assignments' wrapping, decode_assignment, join_group_protocols and the codecs are NOT translated (tie B only); this run: "
+        + ck.cov["translator_tie"],
         "hand-written Gallina model Model/Assign.v stands for afkak/_group.py:572-653 and kafkacodec.py:1002-1025,1120-1150 with the "
         "_util.py readers/writers they use (tie checked by this run's correspondence only)",
         "a Python str is modelled as the list of its code points; CPython orders str by code point and tuples lexicographically, and "
